@@ -417,6 +417,78 @@ func tranOp(r *rand.Rand) {
 	}
 }
 
+// dropRecreateDrop: a persisted table is dropped, created again under the same name and
+// (mostly) dropped again, all between two persists
+func dropRecreateDrop(r *rand.Rand) {
+	ts := currentTables()
+	if len(ts) == 0 {
+		return
+	}
+	t := ts[r.Intn(len(ts))]
+	if r.Intn(4) > 0 {
+		db.Persist()
+	}
+	cmds := []string{"drop " + t.name, "create " + t.name + " (k, a, b, c) key(k) index(b)"}
+	for i, cmd := range cmds {
+		res := try(func() { query.DoAdmin(db, cmd, nil) })
+		tr.Emit(vh.E("Admin", "cmd", cmd, "res", res))
+		if res != "ok" {
+			return
+		}
+		if i == 1 && r.Intn(2) == 0 {
+			tranOp(r)
+		}
+	}
+	if r.Intn(4) > 0 {
+		res := try(func() { query.DoAdmin(db, cmds[0], nil) })
+		tr.Emit(vh.E("Admin", "cmd", cmds[0], "res", res))
+	}
+}
+
+// shortRowsThenDrop: rows whose last stored field is column c (the fields after it are empty
+// and trimmed), then column c is dropped: the records keep the value in the deleted slot and
+// dump / compact have to squeeze it out
+func shortRowsThenDrop(r *rand.Rand) {
+	for _, t := range currentTables() {
+		var live []int
+		for i, c := range t.cols {
+			if c != "-" && c != t.key {
+				live = append(live, i)
+			}
+		}
+		if len(live) < 2 || r.Intn(2) == 0 {
+			continue
+		}
+		ci := live[r.Intn(len(live)-1)] // not the last live column
+		th := &core.Thread{}
+		if ut := db.NewUpdateTran(); ut != nil {
+			try(func() {
+				for n := 0; n < 2; n++ {
+					var rb core.RecordBuilder
+					for i, c := range t.cols {
+						switch {
+						case c == t.key:
+							rb.Add(core.IntVal(20 + r.Intn(30)))
+						case i == ci:
+							rb.Add(core.SuStr("gone" + strconv.Itoa(r.Intn(9))))
+						default:
+							rb.AddRaw("")
+						}
+					}
+					ut.Output(th, t.name, rb.Trim().Build())
+				}
+			})
+			if ut.Complete() == "" {
+				tr.Emit(vh.E("Committed"))
+			}
+		}
+		cmd := "alter " + t.name + " drop (" + t.cols[ci] + ")"
+		res := try(func() { query.DoAdmin(db, cmd, nil) })
+		tr.Emit(vh.E("Admin", "cmd", cmd, "res", res))
+		return
+	}
+}
+
 // buildThenChange: build an index over rows that are not persisted yet, then delete or
 // update some of them (their entries are in the new index's btree but only in the
 // layers of the older indexes)
@@ -749,12 +821,20 @@ func history(r *rand.Rand, steps int) {
 			liveAsof(r, nil)
 			continue
 		}
+		if dumpMode && r.Intn(16) == 0 {
+			shortRowsThenDrop(r)
+			continue
+		}
 		if dumpMode && r.Intn(8) == 0 {
 			liveDump(r)
 			continue
 		}
 		if r.Intn(12) == 0 {
 			buildThenChange(r)
+			continue
+		}
+		if r.Intn(16) == 0 {
+			dropRecreateDrop(r)
 			continue
 		}
 		if loadMode && r.Intn(14) == 0 {
